@@ -1,6 +1,6 @@
 """C02 — concurrent requests never share a connection, exceed maxsize, or deadlock.
 
-case = {"maxsize": 1|2, "block": bool, "progs": [[op, ...], ...], "schedule": [thread, ...]}     op = request | request_fail | close
+case = {"maxsize": 1|2, "block": bool, "progs": [[op, ...], ...], "schedule": [thread, ...]}     op = request | request_fail | close | request_retry (a streamed request answered 503 once: drained, retried)
 Real threads run the real HTTPConnectionPool over the in-memory network under a token-passing scheduler: a thread runs
 until its next access to shared state - a read of self.pool, an operation on the queue object, the moment its request is
 written - and the schedule (a list of thread numbers; entries naming a thread that cannot run are skipped; when it is
@@ -31,7 +31,7 @@ EXHAUSTIVE = {"quick": False, "thorough": False}
 CASE_TIMEOUT = 40
 IMPL_SERIAL = False
 
-OPS = {"request": 0, "request_fail": 1, "close": 2}
+OPS = {"request": 0, "request_fail": 1, "close": 2, "request_retry": 3}
 
 
 def encode(case):
@@ -161,6 +161,8 @@ def _scenario(case):
     problems = []
     stats = {"max_open": 0, "created": 0}
 
+    retried = set()
+
     class Net2(Net):
         def connect(self, sock, host, port):
             sock.user = None
@@ -177,6 +179,9 @@ def _scenario(case):
                 path = head.split(b" ")[1].decode()
                 if path.startswith("/fail"):
                     peer.fail(ConnectionResetError(104, "Connection reset by peer"))
+                elif path.startswith("/retry") and path not in retried:
+                    retried.add(path)
+                    peer.send(http_response(503, "Busy", [], b"later"))
                 else:
                     peer.send(http_response(200, "OK", [], path.encode()))
             return Peer(on_data)
@@ -227,6 +232,15 @@ def _scenario(case):
                         if op == "close":
                             pool.close()
                             outs[i].append(4)
+                        elif op == "request_retry":
+                            path = "/retry/t%d/%d" % (i, k)
+                            r = pool.urlopen("GET", path, retries=urllib3.Retry(2, status_forcelist=[503], backoff_factor=0), pool_timeout=None,
+                                             preload_content=False)
+                            data = r.read()
+                            r.release_conn()
+                            if data != path.encode():
+                                problems.append("thread %d received the response to another request" % i)
+                            outs[i].append(0)
                         else:
                             path = "/%s/t%d/%d" % ("fail" if op == "request_fail" else "ok", i, k)
                             r = pool.urlopen("GET", path, retries=False, pool_timeout=None)
@@ -353,7 +367,7 @@ def histogram(cases, obss):
 # ---------------------------------------------------------------- generators
 def rand_progs(rng, with_close):
     n = rng.choice([2, 2, 3])
-    progs = [[rng.choice(["request", "request", "request_fail"]) for _ in range(rng.choice([1, 2]))] for _ in range(n)]
+    progs = [[rng.choice(["request", "request", "request_fail", "request_retry"]) for _ in range(rng.choice([1, 2]))] for _ in range(n)]
     if with_close:
         i = rng.randrange(n)
         if rng.random() < 0.5:
@@ -367,7 +381,7 @@ def cases(rng, tier):
     out = []
     # systematic: two threads, one request each (optionally one closing), every schedule prefix of length 7 over {0,1}
     import itertools
-    for progs in ([["request"], ["request"]], [["request"], ["close"]], [["request_fail"], ["request"]]):
+    for progs in ([["request"], ["request"]], [["request"], ["close"]], [["request_fail"], ["request"]], [["request_retry"], ["request"]]):
         for maxsize in (1, 2):
             for block in (True, False):
                 for pref in itertools.product((0, 1), repeat=7 if tier == "quick" else 11):
